@@ -11,6 +11,7 @@ import (
 	"go/types"
 	"os"
 	"regexp"
+	"sort"
 	"strconv"
 	"strings"
 
@@ -18,10 +19,10 @@ import (
 )
 
 type CExpr struct {
-	Text  string
-	Props []string
-	ast   ast.Expr
-	Line  int
+	Text      string
+	Props     []string
+	ast       ast.Expr
+	Line      int
 	GhostOnly string // clause about this ghost only: skipped for loops that never update it
 }
 
@@ -55,16 +56,17 @@ type Ghost struct {
 }
 
 type ContractFile struct {
-	ByName map[string]*Contract
-	Order  []*Contract
-	Ghosts []*Ghost
-	Specs  map[string]*SpecFn
-	Path   string
-	Scan   map[string]int // counts of assumed/tolerates/trusted
-	Lists  map[string][]string
-	Groups map[string]*Contract
-	Applies [][2]string // group, glob
-	specText string
+	ByName      map[string]*Contract
+	Order       []*Contract
+	Ghosts      []*Ghost
+	Specs       map[string]*SpecFn
+	Path        string
+	Scan        map[string]int // counts of assumed/tolerates/trusted
+	Lists       map[string][]string
+	Groups      map[string]*Contract
+	Applies     [][2]string // group, glob
+	FileApplies [][2]string // group, file name
+	specText    string
 }
 
 func (cf *ContractFile) ghost(name string) *Ghost {
@@ -280,6 +282,13 @@ func parseContractFile(path string, extra ...string) (*ContractFile, error) {
 			if len(fields) >= 2 {
 				cf.Lists[fields[1]] = append(cf.Lists[fields[1]], fields[2:]...)
 			}
+			continue
+		case "applyfile":
+			if len(fields) < 3 {
+				return nil, fmt.Errorf("line %d: applyfile GROUP FILE", ln)
+			}
+			cf.FileApplies = append(cf.FileApplies, [2]string{fields[1], fields[2]})
+			cur = nil
 			continue
 		case "apply":
 			if len(fields) < 3 {
@@ -768,7 +777,32 @@ func (fx *FnExec) localByName(name string, loop *ssa.BasicBlock) ssa.Value {
 	if len(found) == 1 {
 		return found[0]
 	}
-	return nil
+	if len(found) > 1 {
+		return nil
+	}
+	// a local that is assigned once: every debug reference names the same SSA value
+	var single ssa.Value
+	for _, b := range fx.Fn.Blocks {
+		for _, in := range b.Instrs {
+			d, ok := in.(*ssa.DebugRef)
+			if !ok || d.IsAddr {
+				continue
+			}
+			id, ok := d.Expr.(*ast.Ident)
+			if !ok || id.Name != name {
+				continue
+			}
+			if _, isConst := d.X.(*ssa.Const); isConst {
+				continue // zero value at the declaration
+			}
+			if single == nil {
+				single = d.X
+			} else if single != d.X {
+				return nil
+			}
+		}
+	}
+	return single
 }
 
 func (fx *FnExec) nilOf(sort string) string {
@@ -1069,6 +1103,51 @@ func (fx *FnExec) evalCallC(x *ast.CallExpr, env *evalEnv) (cval, error) {
 		}
 		return cval{S: "(" + fn.Name + " " + strings.Join(args, " ") + ")", Sort: sf.Ret}, nil
 	}
+	if strings.HasPrefix(fn.Name, "uf_") {
+		// uninterpreted boolean predicate declared on first use over the sorts of its arguments
+		var args, sorts []string
+		for _, a := range x.Args {
+			v, err := fx.evalC(a, env)
+			if err != nil {
+				return cval{}, err
+			}
+			args = append(args, v.S)
+			sorts = append(sorts, v.Sort)
+		}
+		fx.declareFun(fn.Name, sorts, "Bool")
+		return boolr("(" + fn.Name + " " + strings.Join(args, " ") + ")")
+	}
+	if strings.HasPrefix(fn.Name, "ufi_") {
+		// uninterpreted integer-valued function declared on first use
+		var args, sorts []string
+		for _, a := range x.Args {
+			v, err := fx.evalC(a, env)
+			if err != nil {
+				return cval{}, err
+			}
+			args = append(args, v.S)
+			sorts = append(sorts, v.Sort)
+		}
+		fx.declareFun(fn.Name, sorts, "Int")
+		return cval{S: "(" + fn.Name + " " + strings.Join(args, " ") + ")", Sort: "Int", T: types.Typ[types.Int]}, nil
+	}
+	if fn.Name == "freshRef" {
+		v, err := fx.evalC(x.Args[0], env)
+		if err != nil {
+			return cval{}, err
+		}
+		return boolr("(> " + v.S + " " + fx.allocBase() + ")")
+	}
+	if fn.Name == "freshArr" {
+		v, err := fx.evalC(x.Args[0], env)
+		if err != nil {
+			return cval{}, err
+		}
+		if v.Sort != "Slice" {
+			return cval{}, fmt.Errorf("freshArr: not a slice")
+		}
+		return boolr("(> (s.arr " + v.S + ") " + fx.allocBase() + ")")
+	}
 	if strings.HasPrefix(fn.Name, "fn_") {
 		if name, k, f := fx.W.lookupFnSpec(fn.Name); f != nil {
 			var args []string
@@ -1230,6 +1309,34 @@ func globMatch(glob, name string) bool {
 		name = name[k+len(parts[i]):]
 	}
 	return strings.HasSuffix(name, parts[len(parts)-1])
+}
+
+// resolveFileApplies instantiates `applyfile GROUP FILE` for every function declared in the file.
+func (cf *ContractFile) resolveFileApplies(fileOf map[string]string) error {
+	for _, ap := range cf.FileApplies {
+		grp := cf.Groups[ap[0]]
+		if grp == nil {
+			return fmt.Errorf("applyfile: unknown group %q", ap[0])
+		}
+		var names []string
+		for fn, file := range fileOf {
+			if file == ap[1] {
+				names = append(names, fn)
+			}
+		}
+		sort.Strings(names)
+		for _, fn := range names {
+			ct := cf.ByName[fn]
+			if ct == nil {
+				ct = &Contract{Kind: "func", Name: fn, LoopInv: map[int][]*CExpr{}, LoopDec: map[int]*CExpr{},
+					Nilable: map[string]bool{}, NonNil: map[string]bool{}, Flags: map[string]string{}, Line: grp.Line}
+				cf.ByName[fn] = ct
+				cf.Order = append(cf.Order, ct)
+			}
+			mergeContract(ct, grp)
+		}
+	}
+	return nil
 }
 
 // resolveApplies instantiates `apply GROUP GLOB` for every matching function.
